@@ -25,7 +25,7 @@ def ensure_wt():
 
 
 def demo_cmds(d, meta):
-    build = meta.get('build_cmd', '')
+    build = meta.get('build_cmd', '').split('#')[0]
     run = meta.get('run_cmd', '')
     envs = dict(re.findall(r'\b([A-Z][A-Z0-9_]+)=(\S+)', run))
     envs = {k: v for k, v in envs.items() if k.startswith(('MYTH', 'LD_', 'OMP'))}
@@ -40,6 +40,9 @@ def demo_cmds(d, meta):
     src = 'demo.cc' if os.path.exists(os.path.join(d, 'demo.cc')) else ('demo.cpp' if os.path.exists(os.path.join(d, 'demo.cpp')) else 'demo.c')
     cc = 'g++' if src != 'demo.c' else 'gcc'
     inc = '-I%s/include -I%s/src -I%s/src/profiler -L%s/src/.libs -L%s/src/profiler/.libs -Wl,-rpath,%s/src/.libs -Wl,-rpath,%s/src/profiler/.libs' % ((WT,) * 7)
+    if 'myth-ld.opts' in build:
+        # link-time redirection: the --wrap option file of the worktree under test
+        inc = '@%s/src/myth-ld.opts %s' % (WT, inc)
     bcmd = '%s %s %s %s %s -o /tmp/vseed_demo' % (cc, ' '.join(extra), os.path.join(d, src), inc, ' '.join(libs))
     args = ''
     m = re.search(r'\./demo\s+([^()\n;|&]*)', run)
